@@ -14,7 +14,9 @@ import (
 
 // U32 draws a uint32 biased towards byte patterns that expose endianness / truncation bugs.
 func U32(t *rapid.T, label string) uint32 {
-	switch rapid.IntRange(0, 9).Draw(t, label+".kind") {
+	switch rapid.IntRange(0, 10).Draw(t, label+".kind") {
+	case 10: // a constant that occurs in the library's source (or its neighbour)
+		return uint32(DictInt(t, label, 0xffffffff))
 	case 0:
 		return rapid.SampledFrom([]uint32{1, 0xff, 0x100, 0xffff, 0x10000, 0xffffff, 0x1000000, 0x7fffffff, 0x80000000, 0xfffffffe, 0xffffffff, 0x01020304, 0xa1b2c3d4, 0x55aaaa55}).Draw(t, label)
 	case 1, 2, 3:
@@ -41,6 +43,9 @@ func Serial(t *rapid.T) uint32 {
 }
 
 func U8(t *rapid.T, label string) uint8 {
+	if rapid.IntRange(0, 11).Draw(t, label+".dict?") == 0 {
+		return uint8(DictInt(t, label, 0xff))
+	}
 	if rapid.IntRange(0, 5).Draw(t, label+".edge") == 0 {
 		return rapid.SampledFrom([]uint8{0, 1, 2, 3, 4, 5, 9, 10, 0x0f, 0x10, 0x7f, 0x80, 0x99, 0xa0, 0xfe, 0xff}).Draw(t, label)
 	}
@@ -97,6 +102,11 @@ func IPv4(t *rapid.T, label string) [4]byte {
 }
 
 func Port(t *rapid.T, label string) uint16 {
+	if rapid.IntRange(0, 11).Draw(t, label+".dict?") == 0 {
+		if p := uint16(DictInt(t, label, 0xffff)); p != 0 {
+			return p
+		}
+	}
 	if rapid.IntRange(0, 3).Draw(t, label+".edge") == 0 {
 		return rapid.SampledFrom([]uint16{1, 80, 255, 256, 59999, 60000, 60001, 60002, 65535, 0x1234}).Draw(t, label)
 	}
